@@ -329,6 +329,10 @@ pub fn gen(prop: &str, rng: &mut Rng, quick: bool, st: &mut Stats) -> Option<Vec
                 for (j, rg) in [FULL, (Bound::Included(pts[0]), Bound::Unbounded), (Bound::Unbounded, Bound::Excluded(*pts.last().unwrap_or(&0) + 2)), (Bound::Included(pts[pts.len() / 2]), Bound::Included(pts[pts.len() / 2] + 50))].iter().enumerate() {
                     let mode = if (k + j) % 2 == 0 { "sync" } else { "async" };
                     c.push(format!("chk_lazy {mode} {} {}", range_tok(rg), hex_bytes(b)));
+                    // without a codec the bytes read are exactly the windows the model requests
+                    if v.header.icomp == 1 && b.len() < 60_000 {
+                        c.push(format!("owin {mode} {} {}", range_tok(rg), hex_bytes(b)));
+                    }
                 }
             }
         }
@@ -363,6 +367,19 @@ pub fn gen(prop: &str, rng: &mut Rng, quick: bool, st: &mut Stats) -> Option<Vec
             let big = valid_entries(rng, 9000, false, false, st);
             c.push(format!("chk_sched wdirs sync {:x} - none - {}", rng.next(), entries_tok(&big)));
             c.push(format!("chk_sched wdirs async {:x} - gzip 40 {}", rng.next(), entries_tok(&big)));
+            // the model's combinators (IO.v) against std / futures on scheduled streams
+            for k in 0..(if quick { 150 } else { 2000 }) {
+                let mode = if k % 2 == 0 { "sync" } else { "async" };
+                let img = rng.bytes_range(0, 40);
+                let pos = rng.below(img.len() as u64 + 3);
+                let n = rng.below(img.len() as u64 + 4);
+                let sched: Vec<u64> = (0..rng.below(12)).map(|_| rng.range(1, 6)).collect();
+                c.push(format!("io_read_exact {mode} {n:x} {pos:x} {} {}", nums_tok(&sched), hex_bytes(&img)));
+                c.push(format!("io_read_to_end {mode} {:x} {pos:x} {} {}", rng.below(img.len() as u64 + 5), nums_tok(&sched), hex_bytes(&img)));
+                let bs = rng.bytes_range(0, 30);
+                c.push(format!("io_write_all {mode} {pos:x} {} {} {}", nums_tok(&sched), hex_bytes(&img), hex_bytes(&bs)));
+                st.bump("io_combinator_cases");
+            }
             // exhaustive compositions of small inputs
             for k in 0..(if quick { 6 } else { 30 }) {
                 let n = 1 + k % 3;
